@@ -206,7 +206,37 @@ def plant_clash(rng, form):
     named = [r for r in survey if r.get("name")]
     if len(named) < 2:
         return None
-    kind = rng.choice(["sibling_case", "sibling_exact", "generated_count", "generated_other", "meta", "section_twice", "root_name"])
+    kind = rng.choice(["sibling_case", "sibling_exact", "generated_count", "generated_other", "meta", "section_twice", "root_name", "two_audits", "flat_dup", "flat_dup"])
+    if kind == "two_audits":
+        # every audit row is renamed `audit` and moved into meta, wherever it sits
+        survey.insert(rng.randint(0, len(survey)) if not any(r["type"].startswith(("begin", "end")) for r in survey) else 0, {"type": "audit", "name": "audit"})
+        survey.append({"type": "audit", "name": rng.choice(["audit", "a2"]), "parameters": "track-changes=true"})
+        return kind
+    if kind == "flat_dup":
+        # with the flat setting, children of groups become children of the group's parent: same names in different groups collide
+        grp_rows = [r for r in survey if r["type"].startswith("begin") and "group" in r["type"]]
+        if not grp_rows:
+            return None
+        g = rng.choice(grp_rows)
+        i0 = survey.index(g)
+        depth, inner = 0, []
+        for r in survey[i0:]:
+            depth += r["type"].startswith("begin") - r["type"].startswith("end")
+            if depth == 0:
+                break
+            if depth == 1 and r is not g and r.get("name") and not r["type"].startswith("begin"):
+                inner.append(r)
+        if not inner:
+            return None
+        # only when no repeat lies between the group and the root (a flat repeat is a different matter)
+        if any("repeat" in r["type"] for r in survey if r["type"].startswith("begin")):
+            return None
+        dup = rng.choice(inner)["name"]
+        survey.append({"type": "begin group", "name": "fg9", "label": "G"})
+        survey.append({"type": "text", "name": rng.choice([dup, dup.upper(), dup.lower()]), "label": "dup"})
+        survey.append({"type": "end group"})
+        form.setdefault("settings", [{}])[0]["flat"] = "yes"
+        return kind
     groups = [r for r in named if r["type"].startswith("begin")]
     if kind == "sibling_case":
         a = rng.choice(named)
@@ -271,6 +301,11 @@ def _check(args):
     if rng.random() < 0.3:
         form = forms.add_custom_columns(rng, form)
         form.pop("__info", None)
+    if not clash and i % 4 == 1:
+        rx = rng_for(seed, PID, "exotic", i)
+        forms.add_exotics(rx, form, ["audit", "count_expr", "search", "osm", "empty_group", "legacy_hint", "calc_msgs"], p=0.35)
+        if rx.random() < 0.5:
+            form.setdefault("settings", [{}])[0]["flat"] = rx.choice(["yes", "true"])
     planted = plant_clash(rng, form) if clash else None
     if clash and not planted:
         return {"i": i, "skip": "no clash site"}
@@ -303,7 +338,9 @@ def oracle(seed, tier, searching=False):
         "rule": "generated XLSForms (nested groups/repeats, repeat_count, or_other, triggers, dynamic defaults, entities) converted by the real "
                 "convert(); every bind nodeset, control ref, repeat nodeset/jr:count, setvalue/setgeopoint/recordaudio ref resolved against the "
                 "primary instance with lxml; sibling, bind and control-ref uniqueness checked; a second stream plants catalogued name clashes "
-                "(case-insensitive siblings, generated *_count, meta, duplicate section, section named like the root) and demands rejection",
+                "(case-insensitive siblings, generated *_count, meta, duplicate section, section named like the root, two audit rows, same name in two groups "
+                "under the flat setting) and demands rejection; a quarter of the plain stream adds rare features (audit, flat setting, repeat_count expressions, "
+                "search() selects, osm, empty groups)",
         "accepted": sum(1 for r in oks if r["n"] > 0), "skipped": sum(1 for r in res if "skip" in r),
         "failures": [{"input": {"form": f["form"], "case": f["i"]}, "what": f["what"], "observed": f.get("xform"),
                       "reproduce": "cd /verif && /venv/bin/python harness/check.py C02 --replay <this file>"} for f in fails],
